@@ -1,7 +1,7 @@
 (* C13 - Start-code emulation prevention is exact and output NAL framing is unambiguous.
    Property theorems only; proofs live in DV.Escape. *)
 From Coq Require Import List NArith.
-From DV Require Import Escape.
+From DV Require Import Outcome Bits Escape BitIO Fields Blocks Rpu RpuWS C13Site.
 Import ListNotations.
 Open Scope N_scope.
 
@@ -24,6 +24,18 @@ Proof. exact nal_03_is_escape. Qed.
 Theorem C13_escape_canonical : forall l, hd 1 l <> 0 -> canonically_escaped (escape l) = true.
 Proof. exact escape_canonical. Qed.
 
+(* AT THE CALL SITE: the NAL the library writes for any canonical in-memory RPU is 7C 01 followed by the escaping of
+   the whole RPU payload (prefix, data, CRC-32, final byte, trailing zeros - one pass over all of it): it holds no
+   start code emulation, every 00 00 03 in it is an escape, and un-escaping what follows the NAL header returns
+   the payload *)
+Theorem C13_written_nal_clean : forall p sw x nal,
+  write_hevc_unspec62_nalu p sw x = Ok nal -> rpu_canonical sw x ->
+  exists payload,
+    write_rpu_data p sw x = Ok payload /\ nal = 124 :: 1 :: escape payload /\
+    no_start_code_emulation nal = true /\ esc03_ok 1 1 nal = true /\
+    unescape (skipn 2 nal) = payload.
+Proof. exact written_nal_clean. Qed.
+
 (* non-vacuity: a payload with zero runs, a literal 00 00 03 and trailing zeros *)
 Example C13_example :
   let l := [25; 0; 0; 0; 1; 0; 0; 3; 0; 0; 2; 128; 0; 0] in
@@ -37,6 +49,7 @@ Example C13_refuted_leading_zero : unescape (escape [0; 0; 3; 7]) <> [0; 0; 3; 7
 Proof. vm_compute. discriminate. Qed.
 
 Print Assumptions C13_unescape_escape.
+Print Assumptions C13_written_nal_clean.
 Print Assumptions C13_no_forbidden_triple.
 Print Assumptions C13_03_is_escape.
 Print Assumptions C13_escape_canonical.
